@@ -242,6 +242,8 @@ def match_known(prop, violation, known):
         if k.get("oracle") and k["oracle"] != violation.get("oracle"):
             continue
         m = k.get("match", {})
+        if not m:
+            continue      # findings identified inside the run (core.known_hit) are never matched wholesale here
         if all(str(violation.get(a)) == str(b) or (isinstance(b, str) and b in str(violation.get(a, ""))) for a, b in m.items()):
             return k
     return None
@@ -413,6 +415,17 @@ def main(mod, argv=None):
         print("VIOLATION property=%s replay=%s" % (prop, path), flush=True)
         reported.append(path)
         exit_code = EXIT_VIOLATION if exit_code != EXIT_HARNESS else exit_code
+    # every listed (unrepaired) finding of this property is printed, with how often this run reproduced it
+    hits = collections.Counter()
+    for r in results:
+        for kk, vv in (r.get("stats") or {}).items():
+            if kk.startswith("known:"):
+                hits[kk[len("known:"):]] += vv
+    for kf in known.get("known", []):
+        if isinstance(kf, dict) and kf.get("property") == prop:
+            line = "KNOWN-FINDING: property=%s %s: %s [reproduced %d times in this run]" % (prop, kf.get("id", ""), kf.get("what", "")[:300], hits.get(kf.get("id", ""), 0))
+            known_lines = [l for l in known_lines if kf.get("what", "")[:40] not in l]
+            known_lines.append(line)
     for line in known_lines:
         print(line)
 
